@@ -847,13 +847,21 @@ def c14(ck):
                    dl(2, "base1 --level 300 set x"), dl(2, "base2 num 5 xy"), dl(2, "test a b c d"), dl(2, "test --nope"), dl(2, "test -Z"),
                    dl(0, "ge") + ";b:09", dl(3, "help опция"),
                    "40 64 1 d0 b:67652020;b:1b5b44;b:1b5b44;b:1b5b44;b:09;b:0d", "40 64 1 d4 b:6578;b:1b5b44;b:09;b:0d"]
-    for k, s_ in enumerate(sets[4:], start=4):
-        if thorough or k < 8:
+    for k, s_ in enumerate(sets):
+        if thorough or k < 14:
+            # every write the generated help code makes (list of commands, every command's own help, nested sub-command help: usage line
+            # with [COMMAND] / <COMMAND>, arguments, options, sub-command list) is failed once and for good
             decl_corpus.append(dl(k, "help"))
-            nm = declgen.all_names(s_)
-            if nm:
-                decl_corpus.append(dl(k, "help " + declgen.q(nm[-1])))
+            for e in declgen.set_enums(s_):
+                for c_ in e["cmds"][:4]:
+                    nm_ = declgen.q(declgen.cmd_name(c_))
+                    decl_corpus.append(dl(k, "help " + nm_, cap=80))
+                    if c_["sub"] is not None:
+                        for sc in c_["sub"]["enum"]["cmds"][:2]:
+                            decl_corpus.append(dl(k, nm_ + " " + declgen.q(declgen.cmd_name(sc)) + " --help", cap=80))
+            if k >= 4:
                 decl_corpus.append(dl(k, declgen.rand_decl_line(rng, s_)))
+    decl_corpus = list(dict.fromkeys(decl_corpus))
     base = list(FAULT_CORPUS) + decl_corpus + [gen.rand_session(rng, 12) for _ in range(150 if thorough else 80)]
     base_out = core.run_engine(hb, "ses", base)
     # the model's own fault-free run: fault positions are sink-call numbers, so model and implementation can only be compared under
